@@ -205,7 +205,7 @@ def check_small_int(shape, out):
     vals = (-1.0, 0.0, 1.0, 2.0)
     for ent in itertools.product(vals, repeat=m * n):
         A = np.array(ent).reshape(m, n)
-        for b in (np.array([1.0, -2.0][:m]), A @ np.array([1.0, 0.5, -1.0][:n])):
+        for b in (np.array([1.0, -2.0, 0.5][:m]), A @ np.array([1.0, 0.5, -1.0][:n])):
             out["evaluations"] += 1
             x = SVD(A).lstsq(b)
             if not A.any():
